@@ -164,14 +164,14 @@ async def sd_body(trace, spec, who):
 
 
 class VJob(HashMixin, AbstractJob):
-    def __init__(self, trace, spec):
+    def __init__(self, trace, spec, **extra):
         self.trace = trace
         self.spec = spec
         self.vid = spec['id']
         self._vh = spec.get('hash', 0)
         AbstractJob.__init__(self, forever=spec.get('forever', False),
                              critical=spec.get('critical', True),
-                             label=spec.get('label', spec['id']))
+                             label=spec.get('label', spec['id']), **extra)
 
     async def co_run(self):
         return await body(self.trace, self.spec, self.vid)
@@ -186,7 +186,7 @@ class VJob(HashMixin, AbstractJob):
 class VCoroJob(HashMixin, Job):
     """coroutine-based flavour: asynciojobs.Job around coroutine objects"""
 
-    def __init__(self, trace, spec):
+    def __init__(self, trace, spec, **extra):
         self.trace = trace
         self.spec = spec
         self.vid = spec['id']
@@ -195,7 +195,7 @@ class VCoroJob(HashMixin, Job):
                      coshutdown=sd_body(trace, spec, self.vid),
                      forever=spec.get('forever', False),
                      critical=spec.get('critical', True),
-                     label=spec.get('label', spec['id']))
+                     label=spec.get('label', spec['id']), **extra)
 
 
 class VPrintJob(HashMixin, PrintJob):
@@ -231,6 +231,15 @@ class VPrintJob(HashMixin, PrintJob):
 
 
 class SchedMixin(HashMixin):
+    def __init__(self, *members, vspec=None, vtrace=None, **kwds):
+        # identity (and hash) first: the constructors may already insert this
+        # object into sets (scheduler=..., required=...)
+        self.trace = vtrace
+        self.spec = vspec
+        self.vid = vspec['id']
+        self._vh = vspec.get('hash', 0)
+        super().__init__(*members, **kwds)
+
     async def co_run(self):
         self.trace.log('run_enter', self.vid)
         try:
@@ -271,56 +280,123 @@ def is_sched_spec(node):
     return 'jobs' in node
 
 
-def build(trace, spec, top=True, registry=None):
-    """
-    scheduler spec: {id, jobs:[...], edges:[[a, b] ...] (a requires b),
-    window, timeout, sdt, critical, forever, pure (top only), verbose, hash}
-    atom spec: {id, critical, forever, coro, pre, dur (None=never), ticker,
-    post, outcome, cdur, cyields, sdur (None=never), syields, hash}
-    """
-    if registry is None:
-        registry = {}
-    members = []
-    for jspec in spec['jobs']:
-        if is_sched_spec(jspec):
-            job = build(trace, jspec, top=False, registry=registry)
-        elif jspec.get('print'):
-            job = VPrintJob(trace, jspec)
-        elif jspec.get('coro'):
-            job = VCoroJob(trace, jspec)
-        else:
-            job = VJob(trace, jspec)
-        registry[jspec['id']] = job
-        members.append(job)
+def _topo(spec):
+    req = {j['id']: set() for j in spec['jobs']}
+    for a, b in spec.get('edges', []):
+        req[a].add(b)
+    done, order = set(), []
+    while len(order) < len(spec['jobs']):
+        progress = False
+        for j in spec['jobs']:
+            if j['id'] not in done and req[j['id']] <= done:
+                done.add(j['id'])
+                order.append(j)
+                progress = True
+        if not progress:
+            raise ValueError("cyclic spec")
+    return order, req
+
+
+def make_atom(trace, jspec, **extra):
+    if jspec.get('print'):
+        job = VPrintJob(trace, jspec)
+        if extra.get('required') is not None:
+            job.requires(extra['required'])
+        if extra.get('scheduler') is not None:
+            extra['scheduler'].add(job)
+        return job
+    if jspec.get('coro'):
+        return VCoroJob(trace, jspec, **extra)
+    return VJob(trace, jspec, **extra)
+
+
+def make_sched(trace, spec, top, members=(), **extra):
     kwds = dict(jobs_window=spec.get('window'), timeout=spec.get('timeout'),
                 shutdown_timeout=spec.get('sdt', 1),
                 verbose=spec.get('verbose', False))
     if spec.get('watch'):
         from asynciojobs import Watch
         kwds['watch'] = Watch()
-    # two construction styles: everything given to the constructor, or an
-    # empty scheduler filled afterwards with add() / update()
-    incremental = spec.get('style') == 'incremental'
-    first = [] if incremental else members
     if top and spec.get('pure'):
-        sched = VPureScheduler(*first, **kwds)
+        sched = VPureScheduler(*members, vspec=spec, vtrace=trace, **kwds)
     else:
-        sched = VScheduler(*first, critical=spec.get('critical', True),
+        sched = VScheduler(*members, vspec=spec, vtrace=trace, critical=spec.get('critical', True),
                            forever=spec.get('forever', False),
-                           label=spec.get('label', spec['id']), **kwds)
-    if incremental:
-        for k, job in enumerate(members):
-            if k % 2:
-                sched.add(job)
+                           label=spec.get('label', spec['id']), **kwds, **extra)
+    return sched
+
+
+def populate(trace, spec, sched, registry):
+    """fill an existing, empty scheduler object the way spec['style'] says:
+    'required_arg': every member is created with required= / scheduler=
+    constructor arguments (a single requirement is passed bare, several as a
+    list, tuple or set), nested schedulers being created empty first and
+    filled afterwards; otherwise members are built first and inserted with
+    add() / update(), requirements with requires()"""
+    if spec.get('style') == 'required_arg':
+        order, req = _topo(spec)
+        for k, jspec in enumerate(order):
+            reqs = [registry[b] for b in sorted(req[jspec['id']])]
+            if not reqs:
+                arg = None
+            elif len(reqs) == 1:
+                arg = reqs[0]
             else:
-                sched.update([job, None])
-    sched.trace = trace
-    sched.vid = spec['id']
-    sched._vh = spec.get('hash', 0)
-    sched.spec = spec
+                arg = [list, tuple, set][k % 3](reqs)
+            if is_sched_spec(jspec):
+                job = make_sched(trace, jspec, False, required=arg, scheduler=sched)
+            else:
+                job = make_atom(trace, jspec, required=arg, scheduler=sched)
+            registry[jspec['id']] = job
+        for jspec in order:
+            if is_sched_spec(jspec):
+                populate(trace, jspec, registry[jspec['id']], registry)
+        return
+    members = []
+    for jspec in spec['jobs']:
+        job = build_node(trace, jspec, False, registry) if is_sched_spec(jspec) else make_atom(trace, jspec)
+        registry[jspec['id']] = job
+        members.append(job)
+    for k, job in enumerate(members):
+        if k % 2:
+            sched.add(job)
+        else:
+            sched.update([job, None])
+    for a, b in spec.get('edges', []):
+        registry[a].requires(registry[b])
+
+
+def build_node(trace, spec, top, registry):
+    if spec.get('style') in ('incremental', 'required_arg'):
+        sched = make_sched(trace, spec, top)
+        registry[spec['id']] = sched
+        populate(trace, spec, sched, registry)
+        return sched
+    members = []
+    for jspec in spec['jobs']:
+        job = build_node(trace, jspec, False, registry) if is_sched_spec(jspec) else make_atom(trace, jspec)
+        registry[jspec['id']] = job
+        members.append(job)
+    sched = make_sched(trace, spec, top, members)
     registry[spec['id']] = sched
     for a, b in spec.get('edges', []):
         registry[a].requires(registry[b])
+    return sched
+
+
+def build(trace, spec, top=True, registry=None):
+    """
+    scheduler spec: {id, jobs:[...], edges:[[a, b] ...] (a requires b),
+    window, timeout, sdt, critical, forever, pure (top only), verbose, hash,
+    style (None: everything given to the constructors; 'incremental';
+    'required_arg')}
+    atom spec: {id, critical, forever, coro, print, pre, dur (None=never),
+    ticker, post, outcome, exc, retval, cdur, cyields, sdur (None=never),
+    syields, hash}
+    """
+    if registry is None:
+        registry = {}
+    sched = build_node(trace, spec, top, registry)
     if top:
         return sched, registry
     return sched
